@@ -369,8 +369,42 @@ def explain_cpython(source: str) -> str:
 	return f'source {source!r}: tranp {tranp_significant(source)!r} / CPython tokenize {pylex_ref.cpython_significant(source)!r} / reference {pylex_ref.lex(source)!r}'
 
 
+def template_sources() -> list:
+	"""longer structured sources (beyond the symbolic bound): bracket continuation lines with their own indentation in front of,
+	inside and after indented blocks, comments / blank lines in between, four indentation units"""
+	out = []
+	for ci in ['', ' ', '  ', '   ', '\t']:
+		for u in [' ', '  ', '    ', '\t']:
+			for head in [f'x = [\n{ci}1,\n{ci}2,\n]\n', f'f(a,\n{ci}b)\n', '']:
+				for sep in ['', '\n', '# c\n', f'{u}# c\n']:
+					out.append(f'{head}if x:\n{u}y = 1\n{sep}{u}if y:\n{u}{u}z = (1,\n{ci}2)\n{sep}{u}{u}k = z\nw = 3\n')
+					out.append(f'{head}def f(a,\n{ci}b):\n{u}return {{\n{ci}1: a,\n{ci}}}\n{sep}v = f(\n{ci}1)')
+	return out
+
+
+def templates_closed() -> bool:
+	"""closed obligation: on the template family the significant tokens equal what the real CPython tokenize module produces"""
+	for src in template_sources():
+		want = pylex_ref.cpython_significant(src)
+		if want is None:
+			continue
+		cover('template')
+		if tranp_significant(src) != want:
+			return ok(False)
+	return ok(True)
+
+
+def explain_templates() -> str:
+	for src in template_sources():
+		want = pylex_ref.cpython_significant(src)
+		if want is not None and tranp_significant(src) != want:
+			return f'source {src!r}: tranp {tranp_significant(src)!r} / CPython tokenize {want!r}'
+	return 'no difference'
+
+
 CLASSIFIERS: dict = {}
 EXPLAIN = {
+	'templates_closed': explain_templates,
 	'cpython_law': explain_cpython,
 	'lexer_laws': explain_lexer,
 	'balance_law': explain_balance,
